@@ -7,6 +7,7 @@ import PsVerif.Model.Names
 import PsVerif.Model.Query
 import PsVerif.Model.T1Decode
 import Driver.SerDriver
+import Driver.T1WriteDriver
 import Driver.AFMDriver
 import Driver.RefillDriver
 /-!
@@ -66,6 +67,7 @@ def handle (line : String) : String :=
     | _, _ => "bad-op"
   | ["csf", _, _] => "skip"
   | "ser" :: _ => serVerb line
+  | "t1w" :: _ => t1wVerb line
   | "afmrw" :: _ => afmVerb line
   | "refill" :: _ => refillVerb line
   | "cmap" :: _ => "skip"
@@ -73,6 +75,7 @@ def handle (line : String) : String :=
   | "afm" :: _ => "skip"
   | "sched" :: _ => "skip"
   | "deep" :: _ => "skip"
+  | "hist" :: _ => "skip"
   | "hostilefile" :: _ => "skip"
   | "fault" :: _ => "skip"
   | "det" :: _ => "skip"
